@@ -262,6 +262,11 @@ def mdns_check(ref, impl, lru):
     return None
 
 
+def _oracle_hrefresh(case, impl):
+    from props.c12 import oracle_hrefresh
+    return oracle_hrefresh(case, impl)
+
+
 def oracle_flood(case, impl):
     """one packet announcing n hosts, then a late announcement: the reader survives, the table is bounded, the late name is there"""
     import re
@@ -340,6 +345,8 @@ SPEC = dict(
                     nontrivial=lambda c, i: c.startswith("appuniq") and i != "-"),
                dict(name="dfiles", n_quick=4000, n_thorough=100000, shards_thorough=8, oracle=oracle_dfiles,
                     nontrivial=lambda c, i: "names=-" not in i),
+               # a source that was rewritten and could not be read at one refresh must be read at the next (area shared with C12)
+               dict(name="hrefresh", n_quick=150, n_thorough=3000, shards_thorough=4, oracle=_oracle_hrefresh),
                dict(name="mdns", n_quick=2000, n_thorough=40000, shards_thorough=8, oracle=oracle_mdns,
                     nontrivial=lambda c, i: "names=-" not in i)],
         trusted=COMMON_TRUST + [
